@@ -37,7 +37,7 @@ def dec_number(text):
 class Listener(object):
   """One connection (or UDP socket) of a carbon listener."""
 
-  def __init__(self, kind, clock=None):
+  def __init__(self, kind, clock=None, tolerate_connect_failure=False):
     b = env.bootstrap()
     self.kind = kind
     self.clock = clock
@@ -50,8 +50,15 @@ class Listener(object):
     if clock is not None:
       # timers of the protocol (TimeoutMixin: the idle timeout) run on the harness's virtual clock
       self.proto.callLater = clock.callLater
+    self.connect_exc = None
     if kind == 'udp':
       self.proto.transport = None
+    elif tolerate_connect_failure:
+      # Twisted's tcp.Port logs an exception out of connectionMade and leaves the connection open and reading
+      try:
+        self.proto.makeConnection(self.transport)
+      except Exception as e:  # noqa
+        self.connect_exc = e
     else:
       self.proto.makeConnection(self.transport)
 
